@@ -115,6 +115,19 @@ func repeatRuns(c *core.Ctx, bin, root string, files map[string]string, n int) (
 			seen[key] = &outcome{Exit: r.Exit, Sha: sha(data)}
 		}
 		seen[key].Count++
+		if k%8 == 0 && r.Exit == 0 {
+			// "on every run": also the run that finds the previous run's own output in place
+			r2, err := gd.Run(c, bin, filepath.Join(root, "p"), []string{"."}, "", 0)
+			if err != nil {
+				return nil, nil, false, err
+			}
+			data2, _ := os.ReadFile(filepath.Join(root, "p", "derived.gen.go"))
+			key2 := fmt.Sprintf("%d/%s", r2.Exit, sha(data2))
+			if seen[key2] == nil {
+				seen[key2] = &outcome{Exit: r2.Exit, Sha: sha(data2)}
+			}
+			seen[key2].Count++
+		}
 	}
 	os.RemoveAll(root)
 	var outs []outcome
@@ -167,6 +180,9 @@ func gostr(a *Rich) string { return deriveGoString(a) }
 func keys(m map[string]*Rich) []string { return deriveSort(deriveKeys(m)) }
 func uniq(l []*Inner) []*Inner { return deriveUnique(l) }
 func cont(l []*Inner, i *Inner) bool { return deriveContains(l, i) }
+
+// two calls of one plugin on one source line, the second typed only after the first generation pass
+func mix(a, b *Inner, m map[string]*Rich, ks []string) bool { return deriveEqualI(a, b) && deriveEqualK(deriveKeys(m), ks) }
 `
 
 func siblingFiles(name string) map[string]string {
